@@ -90,6 +90,9 @@ Universe(tier) ==
   \cup { [mode |-> "inf", ret |-> NoTerm, style |-> d[1], ndoc |-> 1, named |-> d[3], body |-> b]
          : d \in { <<"GOOGLE", 1, FALSE>>, <<"REST", 1, FALSE>>, <<"NUMPYDOC", 1, FALSE>>, <<"NUMPYDOC", 1, TRUE>> },
            b \in B0(1..NLeaf) \cup Conds(IF tier = "quick" THEN {1, 3, 5, 6, 7, 9} ELSE 1..NLeaf) }
+  \* no return statement at all, results known from the docstring only: they are named like any other unnamed result
+  \cup { [mode |-> "inf", ret |-> NoTerm, style |-> d[1], ndoc |-> d[2], named |-> FALSE, body |-> <<>>]
+         : d \in { <<"GOOGLE", 1, FALSE>>, <<"REST", 1, FALSE>>, <<"NUMPYDOC", 1, FALSE>>, <<"NUMPYDOC", 2, FALSE>>, <<"NUMPYDOC", 3, FALSE>> } }
 
 (* ---------- what the statement determines ---------- *)
 DocNames == <<"alpha", "beta", "gamma">>
@@ -178,7 +181,11 @@ Judge(s, obs) ==
     LET vals == ReturnValues(s.body)
         ot == ObsTypes(obs)
         kinds == { s.body[m].k : m \in 1..Len(s.body) }
-    IN IF vals = {}
+        on == ObsNames(obs)
+    IN IF vals = {} /\ s.ndoc > 0
+       THEN { [property |-> "C07", clause |-> "Names", sig |-> "names:documented-only:" \o s.style \o ":" \o ToString(s.ndoc), expected |-> ToString([ i \in 1..Len(on) |-> DefaultName(i) ]),
+                observed |-> ToString(on)] : x \in { 1 } \cap { IF on = [ i \in 1..Len(on) |-> DefaultName(i) ] THEN 0 ELSE 1 } }
+       ELSE IF vals = {}
        THEN (IF ot = <<>> THEN {} ELSE { [property |-> "C07", clause |-> "NoReturnNoResult", sig |-> "inf:no-return", expected |-> "<<>>", observed |-> ToString(ot)] })
        ELSE IF OnlyNone(vals) THEN {}
        ELSE IF Covers(ot, vals) THEN {}
